@@ -205,6 +205,23 @@ PROPS["C23"] = dict(
     trusted=COMMON_TRUST,
 )
 
+PROPS["C11"] = dict(
+    units=[("verus", "builtins")],
+    explanation="Each of the 23 pure builtins is verified against a contract taken from the documented table: any other arity is Err; a first argument outside the documented kinds is Err "
+                "(and a second one for get/join/round); a documented kind gives Ok with the documented result kind, and the documented value where it is a function of the argument "
+                "(len, first, last, rest, pop, get, is_error, int of byte/char/bool, char of byte, join = chars with the delimiter between neighbours, encode_utf8 = the UTF-8 bytes, "
+                "decode_utf8 = the inverse). The five round-trip laws are exec compositions checked against those contracts only: int(str(n)) == n, float(str(x)) == x for finite x, "
+                "decode_utf8(encode_utf8(s)) == s, join(chars(s)) == s, len(encode_utf8(s)) == len(s). round's 10^n is behind a no-overflow precondition. "
+                "The BUILTINFNS table binds each name to the function under contract (source scan).",
+    not_covered=["sort: only arity/kind/identity of the returned array; 'non-decreasing permutation' is slice::sort's contract over Object's Ord (C09 covers the order)",
+                 "the text of error messages ('naming the builtin' is call_builtin's format!, dropped by rule R3f)",
+                 "values of str() for kinds other than Integer/Float, of tolower/toupper, of float->int/char/byte casts (std behaviour behind shims)",
+                 "HMap get/contains/insert results (HashMap behind shims)"],
+    assumptions=["std: Display for i64/f64 followed by str::parse is the identity (for finite floats); String::from_utf8 inverts str::as_bytes; char::from_u32 is Some exactly on scalar values",
+                 "Array methods get/last/len/is_empty/push/pop behave as their one-line bodies in object/array.rs say (shim contracts read from them)"],
+    trusted=COMMON_TRUST,
+)
+
 # every property not claimed above, with the reason (kept current; see DESIGN.md §6)
 NOT_APPLICABLE = {
     "C01": "not built yet (scanner/parser units pending)",
